@@ -506,4 +506,110 @@ theorem runLog_spec (crc : Bytes → Nat) (hc : CrcRange crc) (gs : List LogGen)
     simp only [List.foldl_cons, hs, hr, pickLog, List.append_assoc]
 
 
+
+
+/-! ### partition snapshots over lineages -/
+
+theorem sum_addLast (l : List Nat) (j : Nat) : (addLast l j).sum = l.sum + j := by
+  induction l with
+  | nil => by_cases h : j = 0 <;> simp [addLast, h]
+  | cons x r ih =>
+    cases r with
+    | nil => simp [addLast]
+    | cons y r' => simp only [addLast, List.sum_cons] at ih ⊢; omega
+
+theorem rbBytes_append (a b : List RB) : rbBytes (a ++ b) = rbBytes a + rbBytes b := by
+  simp [rbBytes, List.sum_append]
+
+theorem rbRecs_append (a b : List RB) : rbRecs (a ++ b) = rbRecs a + rbRecs b := by
+  simp [rbRecs, List.sum_append]
+
+theorem sum_bytes_flatten (segs : List (List RB)) : (segs.map rbBytes).sum = rbBytes segs.flatten := by
+  induction segs with
+  | nil => rfl
+  | cons s r ih => simp [List.flatten_cons, rbBytes_append, ih]
+
+theorem sum_bytes_filter (segs : List (List RB)) :
+    ((segs.filter (fun s => !s.isEmpty)).map rbBytes).sum = rbBytes segs.flatten := by
+  induction segs with
+  | nil => rfl
+  | cons s r ih =>
+    cases s with
+    | nil => simpa [List.filter, rbBytes] using ih
+    | cons b bs =>
+      have : rbBytes (b :: (bs ++ r.flatten)) = rbBytes (b :: bs) + rbBytes r.flatten := by
+        rw [← rbBytes_append]; rfl
+      simp [List.filter, ih, this]
+
+theorem sizes_sum (d : PDisk) : d.sizes.sum = rbBytes d.segs.flatten + d.junk := by
+  simp [PDisk.sizes, sum_addLast, sum_bytes_flatten]
+
+theorem bytes_zero_nil (r : List RB) (hp : ∀ b ∈ r, 0 < b.size) (h : rbBytes r = 0) : r = [] := by
+  cases r with
+  | nil => rfl
+  | cons b bs =>
+    have := hp b (by simp)
+    simp [rbBytes] at h
+    omega
+
+/-- every batch has bytes, and a snapshot on disk records the sizes and the high watermark of a PREFIX of the log -/
+def PInv (d : PDisk) : Prop :=
+  (∀ b ∈ d.segs.flatten, 0 < b.size) ∧
+  ∀ sz h, d.snap = some (sz, h) → ∃ p r, d.segs.flatten = p ++ r ∧ sz.sum = rbBytes p ∧ h = rbRecs p
+
+theorem pinv_step {d d' : PDisk} (hi : PInv d) (hs : PStep d d') : PInv d' := by
+  obtain ⟨hpos, hsnap⟩ := hi
+  cases hs with
+  | append b segs' hj hb hf =>
+    refine ⟨?_, ?_⟩
+    · intro x hx
+      simp only [hf, List.mem_append, List.mem_singleton] at hx
+      rcases hx with hx | rfl
+      · exact hpos x hx
+      · exact hb
+    · intro sz h hsn
+      obtain ⟨p, r, h1, h2, h3⟩ := hsnap sz h hsn
+      exact ⟨p, r ++ [b], by simp [hf, h1], h2, h3⟩
+  | crash segs' j hf =>
+    refine ⟨by simpa [hf] using hpos, ?_⟩
+    intro sz h hsn
+    obtain ⟨p, r, h1, h2, h3⟩ := hsnap sz h hsn
+    exact ⟨p, r, by simp [hf, h1], h2, h3⟩
+  | restart => exact ⟨hpos, hsnap⟩
+  | close hj =>
+    refine ⟨hpos, ?_⟩
+    intro sz h hsn
+    simp only [Option.some.injEq, Prod.mk.injEq] at hsn
+    obtain ⟨rfl, rfl⟩ := hsn
+    exact ⟨d.segs.flatten, [], by simp, sum_bytes_filter d.segs, rfl⟩
+
+theorem pinv_reach {d : PDisk} (h : PReach d) : PInv d := by
+  induction h with
+  | init => exact ⟨fun b hb => by simp at hb, fun sz h hs => by simp at hs⟩
+  | step _ hs ih => exact pinv_step ih hs
+
+/-- key lemma: a snapshot whose recorded sizes equal the current file sizes describes exactly the current log -/
+theorem snapshot_matches_only_if_current {d : PDisk} (hi : PInv d) (sz : List Nat) (h : Nat) (hs : d.snap = some (sz, h))
+    (hm : sz = d.sizes) : h = d.count ∧ d.junk = 0 := by
+  obtain ⟨hpos, hsnap⟩ := hi
+  obtain ⟨p, r, h1, h2, h3⟩ := hsnap sz h hs
+  have hsum : sz.sum = rbBytes d.segs.flatten + d.junk := by rw [hm, sizes_sum]
+  rw [h1, rbBytes_append] at hsum
+  have hr0 : rbBytes r = 0 := by omega
+  have hr : r = [] := bytes_zero_nil r (fun b hb => hpos b (by simp [h1, hb])) hr0
+  refine ⟨?_, by omega⟩
+  simp [PDisk.count, h1, hr, h3]
+
+theorem recoverHwm_eq_count {d : PDisk} (hi : PInv d) : d.recoverHwm = d.count := by
+  unfold PDisk.recoverHwm PDisk.recoverHwmWith
+  cases hs : d.snap with
+  | none => rfl
+  | some x =>
+    obtain ⟨sz, h⟩ := x
+    by_cases hm : sz = d.sizes
+    · have := (snapshot_matches_only_if_current hi sz h hs hm).1
+      simp only [this, Nat.min_self, ite_self]
+    · simp [hm]
+
+
 end Proof.C33
